@@ -13,6 +13,9 @@
 (*       | "render"  n = index of the error, len = length of its rendering *)
 (*       | "finish"                                                        *)
 (*       | "panic" | "render_panic" | "abort" | "timeout"  (no spec action)*)
+(*       | "notrun"  the recorder gave up on the universe after too many   *)
+(*                   timeouts and never started this input (no spec action:*)
+(*                   nothing was observed, so nothing is accepted)         *)
 (* Record k is validated independently (Init ranges over all k).  Events   *)
 (* are consumed one per step by the matching SyltPipeline action; ParseOk  *)
 (* is the only unobserved step (the public API returns once).  A record    *)
@@ -26,7 +29,10 @@
 (* TokenTextAt(alphabet, idx, frame), the indices must be                  *)
 (* contiguous and inside 1..NumTokenStrings(alphabet, MAXLEN); TLC prints  *)
 (* the total so that the check can verify that the chunks it submitted     *)
-(* cover the universe.  A mismatch is a tool error (Assert), not a verdict.*)
+(* cover the universe.  For UNIVERSE = fam.<family> record k must carry id,*)
+(* text (all files, FamText) and std flag of FamCase(family, idx), indices  *)
+(* contiguous and inside 1..FamSize(family).                               *)
+(* A mismatch is a tool error (Assert), not a verdict.                     *)
 (***************************************************************************)
 EXTENDS SyltPipeline, Json, IOUtils
 
@@ -46,7 +52,11 @@ Frame == CASE Universe \in {"tok20.top", "tok31.top"}   -> "top"
            [] Universe \in {"tok20.body", "tok31.body"} -> "body"
            [] OTHER                                      -> "raw"
 MaxTokLen == IF IsTok THEN atoi(IOEnv.MAXLEN) ELSE 0
-Total == IF IsTok THEN NumTokenStrings(Alpha, MaxTokLen) ELSE N
+\* UNIVERSE = fam.<family>: the index-addressed families of structured programs (FamCase)
+FamUniverses == {"fam.nest", "fam.nestraw", "fam.nestsolo", "fam.place", "fam.cyc", "fam.selfty"}
+IsFam == Universe \in FamUniverses
+FamName == SubSeq(Universe, 5, Len(Universe))
+Total == IF IsTok THEN NumTokenStrings(Alpha, MaxTokLen) ELSE IF IsFam THEN FamSize(FamName) ELSE N
 
 \* the text record q must carry, as derived by TLC
 CaseInput(q) == IF IsTok THEN TokenTextAt(Alpha, Rec[q].idx, Frame) ELSE Rec[q].id
@@ -55,6 +65,10 @@ UniverseOK(q) ==
     /\ Rec[q].idx = Rec[1].idx + q - 1
     /\ Rec[q].idx >= 1 /\ Rec[q].idx <= Total
     /\ IsTok => Rec[q].input = TokenTextAt(Alpha, Rec[q].idx, Frame)
+    /\ IsFam => LET c == FamCase(FamName, Rec[q].idx) IN
+                /\ Rec[q].id = c.id
+                /\ Rec[q].input = FamText(c)
+                /\ Rec[q].nostd = c.nostd
 
 ---------------------------------------------------------------------------
 NE == Len(Rec[k].ev)
@@ -113,7 +127,7 @@ TraceAccept ==
     /\ UNCHANGED <<phase, input, stage, errs, bytes, rendered, k, j>>
 
 Why == IF ~HasEv THEN "truncated"
-       ELSE IF Ev.e \in {"panic", "render_panic", "abort", "timeout"} THEN Ev.e
+       ELSE IF Ev.e \in {"panic", "render_panic", "abort", "timeout", "notrun"} THEN Ev.e
        ELSE IF Ev.e = "ret" /\ Ev.r = "err" /\ Ev.n = 0 THEN "err-without-errors"
        ELSE IF Ev.e = "ret" /\ Ev.r = "ok" /\ Ev.len = 0 THEN "ok-without-output"
        ELSE IF Ev.e = "render" /\ Ev.len = 0 THEN "empty-rendering"
